@@ -3,6 +3,8 @@
 (a') ClientHold.tla: the same with the reader's shutdown held between its decision and the transport's
     Close (the harness blocks Close at its entry): calls started on the half-dead connection - with an
     end-of-stream the write side still accepts them - must fail once the shutdown goes on.
+(a'') ClientSub.tla: the subscription's cancel function (abort branch of the forwarding goroutine:
+    RemoveHandler - valid or stale - then close of the events channel) in every order with the loss.
 (a) Client.tla (bus/client.go over EndPoint.tla and a stream that can fail): TLC checks every interleaving
     of 2 concurrent calls (or 1 call + subscription + disconnect callback), a peer answering whole or in two
     pieces, possibly before the send has returned, and a Fail / peer close / local Close placed anywhere:
@@ -45,11 +47,14 @@ def run(ctx):
     thorough = ctx.tier == "thorough"
     ctx.design_check("Client", "MCClient_calls.cfg", workers=8, timeout=3000)
     ctx.design_check("Client", "MCClient_sub.cfg", workers=8, timeout=3000)
+    # the subscription's cancel function racing the loss of the connection
+    ctx.design_check("ClientSub", "MCClientSub.cfg", workers=8, timeout=3000)
     # the shutdown held between the reader's decision and the transport's Close (half-dead connection)
     ctx.design_check("ClientHold", "MCClientHold_thorough.cfg" if thorough else "MCClientHold.cfg", workers=8, timeout=3400)
     replayed = 0
     races = 0
-    cfgs = [("GenClient", "GenClient_calls.cfg"), ("GenClient", "GenClient_sub.cfg"), ("GenClientHold", "GenClientHold.cfg")] + \
+    cfgs = [("GenClient", "GenClient_calls.cfg"), ("GenClient", "GenClient_sub.cfg"), ("GenClientHold", "GenClientHold.cfg"),
+            ("GenClientSub", "GenClientSub.cfg")] + \
            ([("GenClient", "GenClient_thorough.cfg")] if thorough else [])
     for module, cfg in cfgs:
         g = ctx.tlc(module, cfg, workers=1, count=False, timeout=3000)
@@ -57,7 +62,7 @@ def run(ctx):
             raise Infra("GenClient %s: %s" % (cfg, g.violated))
         tests, multi = annotate(g.printed("T"))
         races += multi
-        if len(tests) < 300:
+        if len(tests) < (300 if cfg != "GenClientSub.cfg" else 100):
             raise Infra("too few behaviours from %s: %d" % (cfg, len(tests)))
         tp = ctx.path(cfg + ".tests.ndjson")
         with open(tp, "w") as f:
